@@ -164,6 +164,8 @@ let opt_text_answer (a : string) : BinNums.coq_N list option =
   | ["ERR"] -> None
   | _ -> failwith ("bad decode answer " ^ a)
 
+let sbl_cache : (string, String.string list) Hashtbl.t = Hashtbl.create 64
+
 let oracles : Detect.oracles = {
   Detect.sdecode = (fun e b -> opt_text_answer (ask ("Q DEC " ^ hex_of_string (ocaml_string e) ^ " " ^ hex_of_string (ocaml_of_bytes b))));
   Detect.stest = (fun e b -> ask ("Q TEST " ^ hex_of_string (ocaml_string e) ^ " " ^ hex_of_string (ocaml_of_bytes b)) = "1");
@@ -178,7 +180,13 @@ let oracles : Detect.oracles = {
   Detect.merge = (fun ls ->
       let q = if ls = [] then "-" else SS.concat ";" (SL.map print_coh ls) in
       parse_coh (ask ("Q MERGE " ^ q)));
-  Detect.sb_langs = (fun e -> parse_langs (ask ("Q SBL " ^ hex_of_string (ocaml_string e))));
+  (* cd::encoding_languages: computed by the model itself (Model/SbLangs.v over the generated single-byte tables),
+     memoised per name; the `names` level compares it with the library for every supported name *)
+  Detect.sb_langs = (fun e ->
+      let k = ocaml_string e in
+      match Hashtbl.find_opt sbl_cache k with
+      | Some v -> v
+      | None -> let v = SbLangs.sb_langs32 e in Hashtbl.add sbl_cache k v; v);
   (* the declaration matcher is the CONCRETE model (Model/Declared.v), not a query *)
   Detect.declared = (fun b -> Declared.any_specified_encoding b);
 }
@@ -210,6 +218,20 @@ let md_oracles : Md.md_oracles = {
       | Some v -> v
       | None -> let v = n_of_int (int_of_string (ask ("Q RACC " ^ string_of_int k))) in Hashtbl.add racc_cache k v; v);
 }
+
+(* ---------- alpha_unicode_split oracles (std Unicode tables), memoised per code point ---------- *)
+let alpha_cache : (int, bool) Hashtbl.t = Hashtbl.create 4096
+let lower_cache : (int, BinNums.coq_N list) Hashtbl.t = Hashtbl.create 4096
+let layer_alpha (cp : BinNums.coq_N) : bool =
+  let k = int_of_n cp in
+  match Hashtbl.find_opt alpha_cache k with
+  | Some v -> v
+  | None -> let v = (ask ("Q ISALPHA " ^ string_of_int k) = "1") in Hashtbl.add alpha_cache k v; v
+let layer_lower (cp : BinNums.coq_N) : BinNums.coq_N list =
+  let k = int_of_n cp in
+  match Hashtbl.find_opt lower_cache k with
+  | Some v -> v
+  | None -> let v = text_of_utf8 (string_of_hex (ask ("Q LOWER " ^ string_of_int k))) in Hashtbl.add lower_cache k v; v
 
 (* ---------- printing matches ---------- *)
 let print_match_line (tag : string) (m : Matches.cmatch) : unit =
@@ -430,6 +452,13 @@ let () =
         let names = SL.map (fun r -> Some (fst (fst r))) Tables.coq_UNICODE_RANGES in
         let row = SL.map (fun ob -> if Md.suspicious oa ob then '1' else '0') (None :: names) in
         print_string ("R " ^ SS.of_seq (SL.to_seq row) ^ "\n"); flush stdout
+      | ["LAYM"; t] ->
+        let ls = Layers.alpha_unicode_split layer_alpha layer_lower (text_of_utf8 (string_of_hex t)) in
+        print_string ("R " ^ (if ls = [] then "NONE" else SS.concat ";" (SL.map (fun l -> hex_of_string (utf8_of_text l)) ls)) ^ "\nEND\n");
+        flush stdout
+      | ["SBLM"; n] ->
+        let l = SbLangs.sb_langs32 (coq_string (string_of_hex n)) in
+        print_string ("R " ^ (if l = [] then "-" else SS.concat "," (SL.map ocaml_string l)) ^ "\n"); flush stdout
       | ["QUIT"] -> exit 0
       | _ -> failwith ("unknown command " ^ l)
     done
